@@ -69,6 +69,9 @@ const (
 	fkWU0                // WINDOW_UPDATE(0)
 	fkPrio               // PRIORITY depending on stream 0
 	fkPrioSelf           // PRIORITY depending on itself
+	fkPing0              // PING on stream 0
+	fkSettings0          // empty SETTINGS on stream 0
+	fkWUConn             // WINDOW_UPDATE(1) on stream 0
 	fkCount
 )
 
@@ -84,6 +87,9 @@ func (c *refConn) refStep(k int, id uint32) (allowed int, code ErrorCode) {
 	if c.contOn != 0 && !(k == fkCont && id == c.contOn) {
 		c.dead = true
 		return rxConnErr, ProtocolError
+	}
+	if k == fkPing0 || k == fkSettings0 || k == fkWUConn {
+		return rxNone, 0 // answered with an ACK, or nothing
 	}
 	if k == fkCont {
 		if c.contOn == 0 {
@@ -261,15 +267,21 @@ func vKindFrame(k int, id uint32, digit byte, trailer bool) []byte {
 		return vFrame(0x8, 0x0, id, []byte{0, 0, 0, 0})
 	case fkPrio:
 		return vFrame(0x2, 0x0, id, []byte{0, 0, 0, 0, 7})
+	case fkPing0:
+		return vFrame(0x6, 0x0, 0, []byte{1, 2, 3, 4, 5, 6, 7, 8})
+	case fkSettings0:
+		return vFrame(0x4, 0x0, 0, nil)
+	case fkWUConn:
+		return vFrame(0x8, 0x0, 0, []byte{0, 0, 0, 1})
 	default:
 		return vFrame(0x2, 0x0, id, []byte{byte(id >> 24), byte(id >> 16), byte(id >> 8), byte(id), 7})
 	}
 }
 
-// Every sequence of 3 (quick) / 5 (thorough) frames drawn from twelve kinds
+// Every sequence of 3 (quick) / 4 (thorough) frames drawn from fifteen kinds
 // (HEADERS with every combination of END_STREAM and END_HEADERS, CONTINUATION, DATA with
 // and without END_STREAM, RST_STREAM, WINDOW_UPDATE of 1 and of 0, PRIORITY,
-// self-dependent PRIORITY) on streams 1 and 3, through the real read loop,
+// self-dependent PRIORITY, and PING, SETTINGS and WINDOW_UPDATE on stream 0) on streams 1 and 3, through the real read loop,
 // stream loop and handlers: after each frame the server's reaction (nothing,
 // a response, RST_STREAM, GOAWAY) is one RFC 7540 5.1/6.x allows in that
 // stream state, with the error code the RFC names, with handlers that return
@@ -277,12 +289,12 @@ func vKindFrame(k int, id uint32, digit byte, trailer bool) []byte {
 // accepted wherever a stream error is; requests are dispatched exactly for
 // the legal complete sequences.
 //
-//verif:harness prop=C08 unwind=64 timeout=900
+//verif:harness prop=C08 unwind=64 timeout=900 timeoutT=3000 maxstates=3000000
 func VerifH_C08_seq() {
 	s := vStartServer(8)
 	ref := &refConn{hold: vBool()}
 	s.hold = ref.hold
-	n := vPick(3, 5)
+	n := vPick(3, 4)
 	for i := 0; i < n; i++ {
 		k := vRange(0, fkCount-1)
 		id := uint32(1 + 2*vRange(0, 1))
